@@ -64,13 +64,14 @@ OrZero(d, n) == IF d = <<>> THEN Zero(n) ELSE d
 Eval(m, X) ==
   CASE m.kind = "Sc" -> <<Scale(3, X[1])>>
     [] m.kind = "Lin" -> <<Plus(Scale(2, X[1]), Scale(-1, X[2]))>>
+    [] m.kind = "Add" -> <<Plus(X[1], X[2])>>
     [] m.kind = "Mul" -> <<Had(X[1], X[2])>>
     [] m.kind = "Split" -> <<Scale(2, X[1]), Scale(3, X[1])>>
     [] m.kind = "Cat" -> <<X[1] \o X[2]>>
     [] m.kind = "Dot" -> <<(<<Dot(X[1], X[2])>>)>>
 
 OutLens(k, L) ==
-  CASE k \in {"Sc", "Lin", "Mul"} -> <<L[1]>>
+  CASE k \in {"Sc", "Lin", "Mul", "Add"} -> <<L[1]>>
     [] k = "Split" -> <<L[1], L[1]>>
     [] k = "Cat" -> <<L[1] + L[2]>>
     [] k = "Dot" -> <<1>>
@@ -79,6 +80,7 @@ OutLens(k, L) ==
 JVP(m, X, TX) ==
   CASE m.kind = "Sc" -> <<Scale(3, TX[1])>>
     [] m.kind = "Lin" -> <<Plus(Scale(2, TX[1]), Scale(-1, TX[2]))>>
+    [] m.kind = "Add" -> <<Plus(TX[1], TX[2])>>
     [] m.kind = "Mul" -> <<Plus(Had(TX[1], X[2]), Had(X[1], TX[2]))>>
     [] m.kind = "Split" -> <<Scale(2, TX[1]), Scale(3, TX[1])>>
     [] m.kind = "Cat" -> <<TX[1] \o TX[2]>>
@@ -89,6 +91,7 @@ VJP(m, X, DY) ==
   LET d1 == OrZero(DY[1], IF m.kind = "Cat" THEN Len(X[1]) + Len(X[2]) ELSE IF m.kind = "Dot" THEN 1 ELSE Len(X[1])) IN
   CASE m.kind = "Sc" -> <<Scale(3, d1)>>
     [] m.kind = "Lin" -> <<Scale(2, d1), Scale(-1, d1)>>
+    [] m.kind = "Add" -> <<d1, d1>>           \* the same seed goes to both inputs
     [] m.kind = "Mul" -> <<Had(X[2], d1), Had(X[1], d1)>>
     [] m.kind = "Split" -> <<Plus(Scale(2, d1), Scale(3, OrZero(DY[2], Len(X[1]))))>>
     [] m.kind = "Cat" -> <<SubSeq(d1, 1, Len(X[1])), SubSeq(d1, Len(X[1]) + 1, Len(d1))>>
@@ -139,7 +142,7 @@ AddModule(kind, ins) ==
   /\ kind \in Kinds /\ Len(ins) = NIn(kind)
   /\ NMods = 0 => kind \in FirstKinds
   /\ \A j \in 1..Len(ins) : ValidRef(ins[j])
-  /\ kind \in {"Lin", "Mul", "Dot"} => InLen(ins[1]) = InLen(ins[2])
+  /\ kind \in {"Lin", "Mul", "Dot", "Add"} => InLen(ins[1]) = InLen(ins[2])
   /\ LET L == [j \in 1..Len(ins) |-> InLen(ins[j])]
          ol == OutLens(kind, L)
          outs == [j \in 1..NOut(kind) |-> NSig + j] IN
